@@ -296,6 +296,7 @@ pub struct HistCfg {
     pub repl: bool,
     pub twins: bool,   // run two more decoders with other destination fills (C18) - they get no L queries (C19)
     pub latin1: usize, // issue latin1_byte_compatible_up_to before every n-th call (0 = never)
+    pub lat_src: bool, // the query is about exactly the bytes of the call (otherwise the next <= 24 bytes of the stream)
     pub unit: usize,   // filler character width for str/String sinks
     pub prelen: usize, // prior content of String sinks
 }
@@ -357,7 +358,7 @@ impl<'a> Hist<'a> {
         let end = end.max(self.pos).min(stream.len());
         let src = &stream[self.pos..end];
         if cfg.latin1 > 0 && self.calls % cfg.latin1 == 0 {
-            let hi = (self.pos + 24).min(stream.len());
+            let hi = if cfg.lat_src { end } else { (self.pos + 24).min(stream.len()) };
             let bytes = stream[self.pos..hi].to_vec();
             self.latin1(sh, &bytes);
         }
@@ -634,6 +635,7 @@ pub fn replay(sh: &mut Shards, path: &str) {
             repl: v["repl"].as_bool().unwrap(),
             twins: false,
             latin1: if v["lat"].as_bool().unwrap_or(false) { 1 } else { 0 },
+            lat_src: v["latsrc"].as_bool().unwrap_or(false),
             unit: 3,
             prelen: v["prelen"].as_u64().unwrap_or(0) as usize,
         };
